@@ -1,24 +1,70 @@
 DYN_NOTE = ("Trusted: TLC 1.8, the Java override Real.class (exact BigInteger rationals; exp/ln/pow via StrictMath), "
-            "the projection/driver harness/dynrun.py, CasADi's jac_sparsity. Topologies are exhaustive within the stated "
-            "node/link bound; the continuous input space is covered by generic and corner points (branch signatures counted).")
-DYN_TECH = "TLA+ spec (Metanet.tla/Compile.tla) + TLC case enumeration (DynCases.tla) replayed into the code + TLC trace validation of recorded executions (Trace_Dyn.tla)"
+            "the driver harness/dynrun.py (no model formulas, no layout knowledge), CasADi's jac_sparsity. Topologies are exhaustive "
+            "within the stated node/link bound (up to renumbering); the continuous input space is covered by generic and corner "
+            "points (distinct branch signatures and local patterns are counted in the evidence); numeric agreement at 1e-9 relative "
+            "to the largest summed term.")
+DYN_TECH = ("TLA+ spec (Laws/Metanet/Compile.tla) + TLC case enumeration (DynCases.tla) replayed into the code + "
+            "TLC trace validation of the recorded executions (Trace_Dyn.tla)")
+BUILD_NOTE = ("Trusted: TLC, the projection harness/buildrun.py, networkx as ground truth for recomputation. Exhaustive over all "
+              "histories up to the depth bound in a universe of 3 nodes / 2 links / 2 origins / 2 destinations (duplicate names "
+              "included); random recorded histories (6 nodes, 5 links) beyond that.")
+BUILD_TECH = ("TLA+ state machine NetBuild.tla model-checked by TLC (MC_Build); every generated transition replayed into the real "
+              "library; recorded random histories validated by TLC (Trace_Build.tla)")
+LIFE_NOTE = ("Trusted: TLC, the replay harness harness/liferun.py (spy engine entered through engines.use(instance), type and "
+             "identity observations). Fixed small network (mainstream origin, metered ramp, speed-limited link, congested "
+             "destination, two late replacements); all interleavings up to the depth bound.")
+LIFE_TECH = ("TLA+ state machine Lifecycle.tla model-checked by TLC (MC_Life) with transition assertions; every generated "
+             "transition replayed into the real library; compiled functions validated numerically by Trace_Dyn.tla")
+
 
 def dyn(text, ref):
     return {"engine": "dyn", "text": text, "design_ref": ref, "note": DYN_NOTE, "technique": DYN_TECH}
 
+
+def build(text, ref):
+    return {"engine": "build", "text": text, "design_ref": ref, "note": BUILD_NOTE, "technique": BUILD_TECH}
+
+
+def life(text, ref):
+    return {"engine": "life", "text": text, "design_ref": ref, "note": LIFE_NOTE, "technique": LIFE_TECH}
+
+
 CHECKS = {
     "C01": dyn("TLC enumerates every valid shape within the bound x decorations x generic/corner points; the real library (NumPy step and SX/MX functions) executes each; TLC validates every recorded next density/speed/queue against the exact-rational METANET specification.", "5/C01"),
-    "C02": dyn("Network-wide and per-node vehicle balances evaluated by TLC on the implementation's own inputs and outputs (NumPy next states; x+, q, q_o of the compiled functions) for every enumerated case; exact conservation is also checked on the specification itself.", "5/C02"),
+    "C02": dyn("Network-wide and per-node vehicle balances evaluated by TLC on the implementation's own inputs and outputs (NumPy next states; x+, q, q_o of the compiled functions) for every enumerated case; exact conservation is also a theorem checked on the specification itself.", "5/C02"),
     "C03": dyn("Every enumerated case is evaluated through NumPy and through SX and MX functions at compactness 0/1/2; TLC compares each with the specification and the function outputs with the NumPy next states recorded for the same values.", "5/C03"),
-    "C05": dyn("With more_out=True at the three levels, TLC checks the reported link and origin flows against the specification and the queue / flow / feed identities on the function's own outputs.", "5/C05"),
-    "C07": dyn("For every valid shape in the bound: is_valid accepts, NumPy steps (own variables and user arrays), SX and MX step and compile at compactness -1..3, shapes match, and outputs are finite on the defined admissible domain including exact zeros.", "5/C07"),
-    "C10": dyn("Structural Jacobian sparsity of the SX and MX functions and bit-exact NumPy perturbation results are checked by TLC against the declarative dependency sets Deps of the specification.", "5/C10"),
-    "C17": dyn("TLC checks the origin-flow bounds and next-queue non-negativity on the q_o / w+ outputs of the compiled functions for every admissible enumerated case, and as exact theorems on the specification.", "5/C17"),
+    "C04": dyn("Names, sizes and free symbols of every compiled function (compactness -1..3, with/without flows, with declared parameters, SX and MX) are checked by TLC against Compile!LayoutIn/LayoutOut instantiated with the network's own element order; position-only generic arguments are decoded through the specification's layout and every result compared slot by slot.", "5/C04"),
+    "C05": dyn("With more_out=True at the three levels (also with symbolic T / capacities / critical densities), TLC checks the reported link and origin flows against the specification and the queue / flow / feed identities on the function's own outputs.", "5/C05"),
+    "C06": build("Every graph reachable through the construction API within the bound: is_valid(False)/(True) on the real network after every replayed transition against the nine conditions stated literally in NetBuild!Valid (verdict, raise-iff-invalid, messages).", "5/C06"),
+    "C07": dyn("For every valid shape in the bound: is_valid accepts, NumPy steps (own variables 'rand'/'empty' and user arrays), SX and MX step and compile at compactness -1..3, shapes match, outputs finite on the defined admissible domain including exact zeros.", "5/C07"),
+    "C08": build("All interleavings of mutating calls and reads up to the depth bound: after every replayed transition every lookup and per-node view of the real network equals recomputation from the live graph and the specification's value; the model's own invariant CacheCoherent is checked for the invalidation table.", "5/C08"),
+    "C09": build("All call sequences up to the bound and all path shapes up to length 4 (quick) / 6 (thorough): graph after each call equals NetBuild's post-state and the declaratively Described graph; malformed paths raise; no non-node object becomes a node.", "5/C09"),
+    "C10": dyn("Structural Jacobian sparsity of the SX and MX functions and bit-exact NumPy perturbation results are checked by TLC against the declarative dependency sets Metanet!Deps.", "5/C10"),
+    "C11": dyn("Family 'opts': the 64 option combinations over negative and positive inputs on NumPy, SX, MX; TLC compares with StepOpt = clamp o Step o clamp and checks bit-exactly the metamorphic relation against the plain step on hand-clamped inputs.", "5/C11"),
+    "C12": life("Histories of steps/compilations/initialisations with caller-owned arrays and symbols: after every call every caller-owned object, the supplied dictionary and all element parameters are compared with pristine copies; every NumPy step from caller values is compared bit for bit with a fresh network.", "5/C12"),
+    "C13": life("All sequences of use(name|instance|bad name) and steps/initialisations with and without explicit engines for all (selected, explicit) pairs: the selected engine is a spy that must stay silent when an explicit engine is passed; kinds of all variables match; selection only changes through use().", "5/C13"),
+    "C14": dyn("Related networks (permuted/bulk/path construction histories with random names, equal names, turn rates scaled per node) stepped by the real library from the same values must give the next states of the base network; exact invariance under scaling is a theorem checked on the specification.", "5/C14"),
+    "C15": {"engine": "prim", "text": "Full product grids per primitive (boundaries, ties, every branch), enumerated by TLC; NumPy and CasADi implementations called on each point as 0-d / length-1 / length-3 arguments and validated by TLC against the scalar laws and against each other.", "design_ref": "5/C15",
+            "note": "Trusted: TLC + Real.class; grids are finite samples placed on every boundary of the laws.",
+            "technique": "TLA+ scalar laws (Laws.tla) + TLC-enumerated grids (Prim.tla, gen) called on both engines + TLC validation of the recorded results (Prim.tla, check)"},
+    "C16": dyn("Functions compiled with symbolic parameter subsets (singletons, pairs, full set; per-element and shared symbols; SX and MX; levels 0 and 2) are evaluated at two parameter points; TLC substitutes the values into the specification's network and compares; trailing positions / stacked p per Compile!ParamEntries.", "5/C16"),
+    "C17": dyn("TLC checks the origin-flow bounds and next-queue non-negativity on the q_o / w+ outputs of compiled functions and on the NumPy next queues for every admissible enumerated case, on both engines' origin primitives over full grids, and as exact theorems on the specification.", "5/C17"),
+    "C18": dyn("Family 'neutral': each case runs against its uncontrolled twin generated by the specification (plain links; swapped ramp variant; unbounded desired flow; infinite limits): equal next states when controls are neutral, next speeds never higher and everything else equal under finite limits; the same relation is an exact theorem on the specification.", "5/C18"),
+    "C19": life("All interleavings of whole-network steps, per-element init/step, init-all, late replacements and compilations up to the depth bound: RuntimeError iff the specification's Ready fails (uninitialised, unstepped or stale next states); returned functions have no free symbols and their values equal StepOpt with the parameters of the most recent step.", "5/C19"),
 }
 ENGINES = [
-    {"name": "dyn", "path": "tla/Metanet.tla tla/Compile.tla tla/DynCases.tla tla/Trace_Dyn.tla harness/dyncheck.py",
-     "serves_properties": sorted(CHECKS), "kind_free_text": "TLA+ model of the METANET step and of the compiled-function layout; TLC generates cases and validates recorded executions"},
+    {"name": "dyn", "path": "tla/Real.tla tla/Real.java tla/Laws.tla tla/Metanet.tla tla/Compile.tla tla/DynCases.tla tla/Trace_Dyn.tla harness/dyncheck.py harness/dynrun.py",
+     "serves_properties": [p for p, c in sorted(CHECKS.items()) if c["engine"] == "dyn"],
+     "kind_free_text": "TLA+ model of the METANET step and of the compiled-function layout over exact rationals; TLC generates cases and validates recorded executions"},
+    {"name": "build", "path": "tla/NetBuild.tla tla/MC_Build.tla tla/Trace_Build.tla harness/buildcheck.py harness/buildrun.py harness/buildtrace.py",
+     "serves_properties": ["C06", "C08", "C09"], "kind_free_text": "TLA+ state machine of the construction API, caches and validation; exhaustive TLC exploration replayed into the code + trace validation"},
+    {"name": "life", "path": "tla/Lifecycle.tla tla/MC_Life.tla harness/lifecheck.py harness/liferun.py",
+     "serves_properties": ["C12", "C13", "C19"], "kind_free_text": "TLA+ state machine of engine selection / init / step / compile readiness; exhaustive TLC exploration replayed into the code"},
+    {"name": "prim", "path": "tla/Laws.tla tla/Prim.tla harness/primcheck.py harness/primrun.py",
+     "serves_properties": ["C15", "C17"], "kind_free_text": "scalar laws + TLC-enumerated grids for every engine primitive"},
 ]
-NOT_APPLICABLE = {p: "check under construction in this round (specification module not yet bound); see DESIGN.md section 5"
-                  for p in ["C04", "C06", "C08", "C09", "C11", "C12", "C13", "C14", "C15", "C16", "C18", "C19"]}
-NOTES = "See DESIGN.md. All checks: /venv/bin/python harness/check.py <id> --tier quick|thorough; exit 2 = machinery failure."
+NOT_APPLICABLE = {}
+NOTES = ("See DESIGN.md. All checks: /venv/bin/python harness/check.py <id> --tier quick|thorough; exit 2 = machinery failure. "
+         "TLC outputs that depend only on the specification and the seed are cached under .cache/ (pre-generated by build.sh); "
+         "everything touching /repo is re-run on every invocation. harness/selftest.py validates the machinery against a catalogue "
+         "of source mutations (harness/mutants.py) on scratch copies.")
